@@ -12,6 +12,7 @@ func init() {
 			ruleKind(c)
 			ruleOmit0(c)
 			ruleSliceWrap(c)
+			ruleSliceWrapOnly(c)
 			rulePendingKey(c)
 			ruleRegDescriptor(c)
 			ruleInternKey(c)
@@ -25,6 +26,14 @@ func init() {
 			ruleNewFresh(c)
 			ruleLeadCountEmpty(c)
 			ruleEfaceDirect(c)
+			// a value whose encoding the reader turns away, skips or does not store does not come back
+			ruleRepeatedNesting(c)
+			ruleRejects(c, decodeBound(c.P), nil)
+			ruleVarSize(c)
+			ruleScalarStore(c)
+			ruleDispatchKnown(c)
+			ruleReadLookup(c)
+			rulePtime(c)
 			// nested values are framed by the size their codec reports: size = appended length is a
 			// necessary condition of the round trip (the reader slices the body by that length)
 			ruleSizeLaw(c)
